@@ -405,6 +405,12 @@ def run(tier: str) -> Run:
             if dup:
                 problems.append(f'{len(dup)} opening(s) reported twice, e.g. ({float(dup[0][0]):.6g} s, {float(dup[0][1]):.6g} s)')
             lo, hi = min(o for o, _ in pairs), max(c for _, c in pairs)
+            run.extra.setdefault('from_disk_chopper_spans', []).append({'case': inst, 'span_s': float(hi - lo), 'npulses_x_tpulse_s': float(npulses * t_pulse), 't_rot_s': float(t_rot)})
+            # "expanded over several source pulses": the windows reach from the first requested pulse to the last one
+            # (a duration, so that a phase of several turns, which shifts all openings, plays no role)
+            if hi - lo < (npulses - 1) * t_pulse:
+                problems.append(f'the reported windows span {float(hi - lo):.6g} s: not expanded over the {npulses} pulses requested '
+                                f'({npulses - 1} pulse periods = {float((npulses - 1) * t_pulse):.6g} s lie between the first and the last)')
             have = set(pairs)
             for (ph, width), (o0, c0) in per_slit.items():
                 k = -(-(lo - o0) // t_rot)  # first turn whose opening starts inside the covered span
@@ -417,7 +423,7 @@ def run(tier: str) -> Run:
         dist_ok = isinstance(dist, SVar) and isinstance(dist.term, Rat) and dist.term.eq(T.norm(T.Vec.sym('axle_position')))
         if not dist_ok:
             problems.append('distance is not the norm of the axle position')
-        kinds = sorted({('false-opening' if 'not an opening' in p_ else 'duplicate' if 'twice' in p_ else 'missing' if 'not reported' in p_ else 'other') for p_ in problems})
+        kinds = sorted({('false-opening' if 'not an opening' in p_ else 'duplicate' if 'twice' in p_ else 'missing' if 'not reported' in p_ else 'not-expanded' if 'not expanded' in p_ else 'other') for p_ in problems})
         if not problems:
             r5.ok(inst, {'windows_reported': len(got_o)})
         for kd in kinds:
